@@ -5,7 +5,9 @@ import DEngine.Model.Snap
   case   : `eng=<file|rocks> ret=<retained_log_entries> pb=<entries the follower applied before>|e;e;snap;e…`
            entry `e` = `<term>/<cmd>` with cmd: put,k,v,ttl|-  del,k  cas,k,exp|-,new  noop
            `snap` = the leader calls create_snapshot here (first occurrence counts)
-  output : `label=<i>.<t> inst=<kv> ila=<i>.<t> b=<kv> bla=<i>.<t> a=<kv> ala=<i>.<t>`   (or `nosnap a=<kv> ala=…`)
+           optional header field `adv=<secs>`: after the replay the clock advances and both nodes run the
+           lease cleanup before their contents are compared
+  output : `label=<i>.<t> inst=<kv> ila=<i>.<t> il=<lease of b after install> sl=<lease in the snapshot> b=<kv> bla=<i>.<t> a=<kv> ala=<i>.<t>`   (or `nosnap a=<kv> ala=…`)
 -/
 open DEngine DEngine.Proto DEngine.MiniKv DEngine.Snap
 
@@ -28,6 +30,7 @@ structure Case where
   eng : Eng
   ret : Nat
   pb : Nat
+  adv : Nat
   log : List Entry
   /-- number of entries before the first `snap` marker. -/
   snapAt : Option Nat
@@ -42,12 +45,13 @@ def parseCase (line : String) : Option Case :=
       | _ => none
     let ret ← natField fs "ret"
     let pb ← natField fs "pb"
+    let adv := (natField fs "adv").getD 0
     let items ← (if body.isEmpty then some [] else (body.splitOn ";").mapM parseItem)
     let log := items.filterMap id
     let snapAt := match items.findIdx? (·.isNone) with
       | some i => some ((items.take i).filterMap id).length
       | none => none
-    pure { eng, ret, pb, log, snapAt }
+    pure { eng, ret, pb, adv, log, snapAt }
   | _ => none
 
 def showId (i t : Nat) : String := s!"{i}.{t}"
@@ -56,12 +60,13 @@ def modelLine (line : String) : String :=
   match parseCase line with
   | none => "bad-case\t-"
   | some c =>
-    let a := replica c.log c.log.length
+    let a := cleanupAfter (replica c.log c.log.length) c.adv
     match c.snapAt with
     | none => s!"nosnap a={showMap "=" a.kv} ala={showId a.la a.laTerm}\tnosnap"
     | some n =>
       let pb := min c.pb n
-      let (snap, inst, b) := scenario c.eng c.ret c.log n pb
+      let (snap, inst, b0) := scenario c.eng c.ret c.log n pb
+      let b := cleanupAfter b0 c.adv
       let tags :=
         [if snap.labelIdx == n then "label-at-applied" else "label-behind",
          if sameKvB b.kv a.kv then "replay-eq" else "replay-differs",
@@ -69,8 +74,18 @@ def modelLine (line : String) : String :=
         (if (c.log.drop snap.labelIdx).any (fun e => match e.cmd with | .cas .. => true | _ => false)
           then ["cas-in-replayed-suffix"] else []) ++
         (if pb > 0 then ["follower-had-state"] else []) ++
+        (if (replica c.log pb).lease.isEmpty then [] else ["follower-had-leases"]) ++
+        (if snap.lease.isEmpty then ["snapshot-lease-empty"] else ["snapshot-has-leases"]) ++
+        (if sameKvB b.kv b0.kv then [] else ["cleanup-removed-keys"]) ++
         (if snap.labelIdx ≤ pb then ["snapshot-not-ahead"] else ["snapshot-ahead"])
-      s!"label={showId snap.labelIdx snap.labelTerm} inst={showMap "=" inst.kv} ila={showId inst.la inst.laTerm} b={showMap "=" b.kv} bla={showId b.la b.laTerm} a={showMap "=" a.kv} ala={showId a.la a.laTerm}\t{",".intercalate tags}"
+      s!"label={showId snap.labelIdx snap.labelTerm} inst={showMap "=" inst.kv} ila={showId inst.la inst.laTerm} il={showMap "@" inst.lease} sl={showMap "@" snap.lease} b={showMap "=" b.kv} bla={showId b.la b.laTerm} a={showMap "=" a.kv} ala={showId a.la a.laTerm}\t{",".intercalate tags}"
+
+def parseLease (s : String) : Option AMap :=
+  if s == "-" then some []
+  else (s.splitOn ",").mapM fun kv =>
+    match kv.splitOn "@" with
+    | [k, v] => do pure ((← k.toNat?), (← v.toNat?))
+    | _ => none
 
 def parseMap (s : String) : Option AMap :=
   if s == "-" then some []
@@ -103,6 +118,10 @@ def monitorC16 (c : Case) (out : String) : String :=
     | some (li, lt), some inst, some b, some bla, some a, some ala, some ila =>
       -- the installed node must report the snapshot's label as its applied index
       if ila != (li, lt) then "bad install-last-applied-not-label"
+      -- … and its lease table must be the snapshot's (entries still live), not what it held before
+      else if (match (lookup fs "il").bind parseLease, (lookup fs "sl").bind parseLease with
+               | some il, some sl => !(sameKvB il (reloadLease sl 1000))
+               | _, _ => true) then "bad install-lease-not-from-snapshot"
       -- snapshot_replay_eq: install + replay of (label, end] = full apply
       else if !(sameKvB b a) || bla.1 != ala.1 then "bad snapshot-replay-differs"
       -- label_matches_state
